@@ -4,6 +4,7 @@ package main
 // a body the engine should not run (unsafe, reflection, logging, clocks).
 
 import (
+	"math/bits"
 	"fmt"
 	"go/types"
 	"runtime/debug"
@@ -713,6 +714,67 @@ func (in *Interp) initExterns() {
 		}
 		return in.newError(msg)
 	}
+	// sort.Slice & co: reflection only supplies length and an element swapper; the sorting itself is
+	// package sort's own pdqsort / insertion / stable code, executed from source
+	sliceSort := func(algo string) func(in *Interp, fr *frame, _ *ssa.Function, a []value) value {
+		return func(in *Interp, fr *frame, _ *ssa.Function, a []value) value {
+			x, ok := a[0].(Iface).v.(Slice)
+			if !ok {
+				in.unsupported("sort.Slice of a non-slice")
+			}
+			n := len(x.a)
+			swap := &Closure{native: func(in *Interp, _ *frame, args []value) value {
+				i := in.concretize(args[0].(*Term), 0, int64(n)-1, "sort swap index")
+				j := in.concretize(args[1].(*Term), 0, int64(n)-1, "sort swap index")
+				in.sch.noteWrite(&x.a[i])
+				in.sch.noteWrite(&x.a[j])
+				x.a[i], x.a[j] = x.a[j], x.a[i]
+				return nil
+			}}
+			ls := Struct{a[1], swap}
+			N := ts.Const(64, uint64(n))
+			switch algo {
+			case "pdq":
+				f := in.ex.lookupFunc("sort", "pdqsort_func")
+				in.callFn(fr, f, []value{ls, ts.Const(64, 0), N, ts.Const(64, uint64(bits.Len(uint(n))))}, nil)
+			case "stable":
+				f := in.ex.lookupFunc("sort", "stable_func")
+				in.callFn(fr, f, []value{ls, N}, nil)
+			case "sorted":
+				for i := n - 1; i > 0; i-- {
+					r := in.callValue(fr, a[1], []value{ts.Const(64, uint64(i)), ts.Const(64, uint64(i-1))}, 0).(*Term)
+					if in.branch(r) {
+						return ts.False
+					}
+				}
+				return ts.True
+			}
+			return nil
+		}
+	}
+	E["sort.Slice"] = sliceSort("pdq")
+	E["sort.SliceStable"] = sliceSort("stable")
+	E["sort.SliceIsSorted"] = sliceSort("sorted")
+	// context.WithValue checks key comparability through reflection; the rest is an ordinary struct
+	E["context.WithValue"] = func(in *Interp, fr *frame, f *ssa.Function, a []value) value {
+		vt := in.ex.lookupType("context", "valueCtx")
+		if vt == nil {
+			in.unsupported("context.valueCtx not loaded")
+		}
+		if a[0].(Iface).t == nil {
+			in.goPanic(in.newError(mkStr(in.ts, "cannot create context from nil parent")))
+		}
+		if a[1].(Iface).t == nil {
+			in.goPanic(in.newError(mkStr(in.ts, "nil key")))
+		}
+		p := new(value)
+		*p = Struct{a[0], a[1], a[2]}
+		return Iface{t: types.NewPointer(vt), v: Ptr{p: p}}
+	}
+	// errors.As: walk the chain like errors.Is does; the target is a pointer to a variable of error or concrete type
+	E["errors.As"] = func(in *Interp, fr *frame, _ *ssa.Function, a []value) value {
+		return ts.Bool(in.errorsAs(fr, a[0].(Iface), a[1].(Iface)))
+	}
 	// only ever formatted into error messages by the code under test: an opaque nil Type
 	E["reflect.TypeOf"] = func(in *Interp, _ *frame, f *ssa.Function, a []value) value { return in.zero(f.Signature.Results()) }
 	E["fmt.Sprintf"] = func(in *Interp, fr *frame, _ *ssa.Function, a []value) value {
@@ -721,7 +783,19 @@ func (in *Interp) initExterns() {
 	}
 	E["fmt.Sprint"] = func(in *Interp, fr *frame, _ *ssa.Function, a []value) value {
 		var out []*Term
-		for _, x := range a[0].(Slice).a {
+		isStr := func(x Iface) bool {
+			if x.t == nil {
+				return false
+			}
+			b, ok := under(x.t).(*types.Basic)
+			return ok && b.Info()&types.IsString != 0
+		}
+		args := a[0].(Slice).a
+		for i, x := range args {
+			// Sprint adds a space between operands when neither is a string
+			if i > 0 && !isStr(x.(Iface)) && !isStr(args[i-1].(Iface)) {
+				out = append(out, ts.Const(8, ' '))
+			}
 			out = append(out, in.fmtValue(fr, x.(Iface), 'v', "").b...)
 		}
 		return Str{out}
@@ -847,11 +921,66 @@ func (in *Interp) errorsIs(fr *frame, err, target Iface) bool {
 		if m == nil || m.Signature.Results().Len() != 1 {
 			return false
 		}
-		nx, ok := in.callFn(fr, m, []value{err.v}, nil).(Iface)
-		if !ok {
+		switch nx := in.callFn(fr, m, []value{err.v}, nil).(type) {
+		case Iface:
+			err = nx
+		case Slice: // Unwrap() []error (errors.Join, fmt.Errorf with several %w)
+			for _, e := range nx.a {
+				if in.errorsIs(fr, e.(Iface), target) {
+					return true
+				}
+			}
+			return false
+		default:
 			return false
 		}
-		err = nx
+	}
+	return false
+}
+
+// errorsAs: errors.As without reflection. target is a non-nil pointer to a variable whose type is
+// an interface type or a concrete type implementing error.
+func (in *Interp) errorsAs(fr *frame, err, target Iface) bool {
+	pt, ok := target.t.(*types.Pointer)
+	if !ok || target.v.(Ptr).IsNil() {
+		in.goPanic(in.newError(mkStr(in.ts, "errors: target must be a non-nil pointer")))
+	}
+	tt := pt.Elem()
+	for depth := 0; depth < 16; depth++ {
+		if err.t == nil {
+			return false
+		}
+		if it, isI := tt.Underlying().(*types.Interface); isI {
+			if types.Implements(err.t, it) {
+				in.store(fr, target.v.(Ptr), err)
+				return true
+			}
+		} else if types.Identical(err.t, tt) {
+			in.store(fr, target.v.(Ptr), err.v)
+			return true
+		}
+		if m := in.methodOf(err.t, "As"); m != nil && m.Signature.Params().Len() == 1 {
+			if in.branch(in.callFn(fr, m, []value{err.v, target}, nil).(*Term)) {
+				return true
+			}
+		}
+		m := in.methodOf(err.t, "Unwrap")
+		if m == nil || m.Signature.Results().Len() != 1 {
+			return false
+		}
+		switch nx := in.callFn(fr, m, []value{err.v}, nil).(type) {
+		case Iface:
+			err = nx
+		case Slice:
+			for _, e := range nx.a {
+				if in.errorsAs(fr, e.(Iface), target) {
+					return true
+				}
+			}
+			return false
+		default:
+			return false
+		}
 	}
 	return false
 }
